@@ -73,8 +73,21 @@ def runNodeEarly (m : String) (cached live : Nat) : String :=
   let ok := decide (netLog s = List.range (cached + live))
   s!"order={if ok then "ok" else "broken"} delivered={(netLog s).length}"
 
+/-- `node tcp <mode> <late>`: chunks of one Tcp stream, `late` of them (at least: the kernel may split
+further) cached before the listener call; the model hands them over in production order -/
+def runNodeTcp (m : String) (late : Nat) : String :=
+  let cached := late + 1        -- the Connected event is cached as well
+  let live := 12
+  let s0 := stepOr (stepOr (init (parseMode m) cached) .start) .callerRelease
+  let s := playNode (40 * (cached + live) + 80) s0 live 3 (fun _ => none)
+  let ok := decide (netLog s = List.range (cached + live))
+  s!"stream={if ok then "ok" else "broken"} chunks_in_bounds=true connected_first={decide ((netLog s).head? = some 0)}"
+
 def runNode (ws : List String) : String :=
   match ws with
+  | ["tcp", m, late] => match late.toNat? with
+    | some l => runNodeTcp m l
+    | none => "bad-case"
   | ["serial", m, _] => runNodeSerial m
   | ["stop", m, sc, p] => match p.toNat? with
     | some p => runNodeStop m sc p
